@@ -33,6 +33,8 @@ def kinds_of(name):
     return (SHORT.get(base, [base]), fall)
 
 
+ALL_O2O_NAMES = set(ALL24) | {"ghost", "ghost_owned", "ghost_ref", "ghosts", "ghosts_owned", "ghosts_ref", "child", "children", "child_parents", "parent", "as_type",
+                              "literal", "pattern", "type_hint", "repeat", "skip_repeat", "stop_repeat", "where_clause", "allow_unknown"}
 _bare = None
 
 
@@ -86,7 +88,7 @@ def render_attrs(attrs, spell):
         return spell(attrs)
     out = []
     for a in attrs:
-        if a.name in bare_names():
+        if a.name in bare_names() or (a.tag and a.tag[0] == "unk"):
             out.append(a.bare())
         else:
             out.append(f"#[o2o({a.inner()})]")
@@ -134,6 +136,7 @@ ERRS = ["MyErr", "String", "std::io::Error", "E1<T>", "anyhow::Error"]
 ACTIONS_TILDE = ["~.clone()", "~ as i64", "{ ~.to_string() }", "~.iter().map(|p| p.into()).collect()", "Some(~)", "~ + 1",
                  "[~, ~]", "(~, 1)", "~.parse::<i32>().unwrap()", "~.0", "Box::new(~)", "&~", "~ . x . y", "~.try_into()?"]
 ACTIONS_AT = ["@.x + 1", "@.name.clone()", "{ @.a * @.b }", "foo(&@)", "@.items.len() as i32", "(@.a, @.b)", "@.v.iter().sum::<i32>()"]
+ACTIONS_LITS = ["1u8", "0usize", "4294967296", "-1", "7i64", "2.5", "1e3", "\"lit\"", "'c'", "true", "99999999999u64"]
 ACTIONS_PLAIN = ["{ 123 }", "{ Default::default() }", "{ None }", "{ String::new() }", "{ vec![1, 2] }", "{ \"~@\".len() }", "{ '~' as u32 }"]
 ACTIONS_MIXED = ["~ + @.b", "{ if @.flag { ~ } else { 0 } }", "m!(~, @)", "(|p: i32| p + ~)(@.k)", "x::<Vec<_>>(~, &@)", "~ && @.y || !~"]
 
@@ -248,7 +251,9 @@ class G:
         k = r.randrange(6)
         member = self.ch(OTHER) if target_named and not self.pr("idx_rename", 0.15) else str(r.randrange(0, max(1, nfields)))
         fall = name in UNTRY
-        if k == 0:
+        if self.pr("lit_args", 0.03):
+            body = self.ch(ACTIONS_LITS) + (", " + self.ch(ACTIONS_TILDE[:4]) if self.pr("x", 0.3) else "")
+        elif k == 0:
             body = member
         elif k == 1:
             body = self.action(fallible=fall)
@@ -322,8 +327,49 @@ class G:
                 out.append(prm)
         return "<" + ", ".join(out) + ("," if self.pr("trailing_comma", 0.1) else "") + ">"
 
+    def shape_fields(self, shape, nf, cparts, struct_hint):
+        """fields for a deliberate tuple<->named shape change: every mapped member names its counterpart member, ghost
+        members (with default) are sprinkled at any position, including the first"""
+        r = self.r
+        fields = []
+        for k in range(nf):
+            fa = []
+            if self.pr("shape_ghost", 0.3):
+                g = self.ghost_instr(cparts, with_default=True)
+                g.name = self.ch(["ghost", "ghost", "ghost_owned", "ghost_ref"])
+                fa.append(g)
+                if g.name != "ghost":
+                    fa.append(Instr(self.ch(["map", "map_owned", "map_ref", "into", "from"]), (OTHER[k % len(OTHER)] if struct_hint else str(k)) + self.ch(["", "", ", ~.clone()", ", *~"]), tag=("mmap", None)))
+            else:
+                tgt = OTHER[k % len(OTHER)] if struct_hint else str(k)
+                style = r.randrange(4)
+                if style == 0:
+                    fa.append(Instr("map", tgt, tag=("mmap", None)))
+                elif style == 1:
+                    fa.append(Instr("map_owned", tgt, tag=("mmap", None)))
+                    fa.append(Instr("map_ref", tgt + ", *~", tag=("mmap", None)))
+                elif style == 2:
+                    fa.append(Instr("from", tgt, tag=("mmap", None)))
+                    fa.append(Instr("into", tgt + self.ch(["", ", ~.clone()", ", ~ + 1"]), tag=("mmap", None)))
+                else:
+                    fa.append(Instr(self.ch(["map", "try_map"]) if self.pr("member_try", 0.1) else "map", tgt + ", ~ + 1", tag=("mmap", None)))
+            fields.append(Field(NAMES[k] if shape == "named" else None, self.ch(["i32", "String", "u8"]), fa))
+        return fields
+
     def struct(self, name="S"):
         r = self.r
+        if self.pr("shape_change", 0.0):
+            shape = self.ch(["tuple", "named"])
+            hint = "{}" if shape == "tuple" else "()"
+            cparts = [self.ch(["A", "B"])]
+            attrs = []
+            for _ in range(r.randrange(1, 3)):
+                nm = self.ch(ALL24 if self.pr("fallible", 0.3) else MAP12)
+                attrs.append(self.trait_instr(nm, cparts[0], False, hint))
+            fields = self.shape_fields(shape, r.randrange(1, 5), cparts, shape == "tuple")
+            it = Item("struct", name, shape, "", attrs, fields)
+            it.meta["cparts"] = cparts
+            return it
         shape = self.ch(["named", "named", "named", "tuple", "tuple", "unit"]) if not self.p.get("force_shape") else self.p["force_shape"]
         nf = 0 if shape == "unit" else r.randrange(self.p.get("min_fields", 0), self.p.get("max_fields", 4) + 1)
         ncp = 1 if not self.pr("multi_cpart", 0.2) else r.randrange(2, 4)
@@ -357,6 +403,7 @@ class G:
             fields.append(Field(NAMES[k % len(NAMES)] if shape == "named" else None, self.ch(TYPES),
                                 self.field_attrs(cparts, has_from, target_named=(shape == "named"), nfields=nf)))
         r.shuffle(attrs) if self.pr("shuffle_type_attrs", 0.3) else None
+        self.unknowns(attrs, fields, True)
         it = Item("struct", name, shape, self.generics(), attrs, fields)
         it.meta["cparts"] = cparts
         return it
@@ -415,10 +462,30 @@ class G:
                         vat[-1].args = self.ch([None, "", "map", "ghost", "type_hint"])
             fields = [Field(NAMES[m] if shape == "named" else None, self.ch(TYPES),
                             self.field_attrs(cparts, True, target_named=(shape == "named"), nfields=nf, is_variant_field=True)) for m in range(nf)]
+            if not prim and shape != "unit" and self.pr("shape_change", 0.0):
+                vat = [a for a in vat if a.name != "type_hint"]
+                vat.append(Instr("type_hint", "as " + ("{}" if shape == "tuple" else "()"), tag=("th", None)))
+                fields = self.shape_fields(shape, max(1, nf), cparts, shape == "tuple")
             vs.append(Variant(f"V{k}", shape, fields, vat))
+        self.unknowns(attrs, vs, False)
         it = Item("enum", name, "enum", self.generics(), attrs, variants=vs)
         it.meta["cparts"] = cparts
         return it
+
+    def unknowns(self, attrs, members, is_struct):
+        """allow_unknown + misplaced / foreign bare attributes, at random positions"""
+        if not self.pr("unknowns", 0.0):
+            return
+        r = self.r
+        if self.pr("allow_unknown", 0.7):
+            attrs.insert(r.randrange(len(attrs) + 1), Instr("allow_unknown", None, tag=("au", None)))
+        for _ in range(r.randrange(1, 3)):
+            nm = self.ch(["parent", "ghost", "child", "literal", "pattern", "type_hint", "children", "serde", "doc_hidden", "ghost_ref"])
+            attrs.insert(r.randrange(len(attrs) + 1), Instr(nm, self.ch([None, "A", "x: { 1 }", "rename = \"x\""]), tag=("unk", None)))
+        if members and self.pr("member_unknowns", 0.6):
+            m = self.ch(members)
+            nm = self.ch(["where_clause", "child_parents", "children", "allow_unknown", "serde", "try_into_existing", "owned_try_into_existing"])
+            m.attrs.insert(r.randrange(len(m.attrs) + 1), Instr(nm, self.ch([None, "T: Clone", "x", "skip"]), tag=("unk", None)))
 
     def tree(self, name="S"):
         """flattened struct: child / child_parents / parent(...)"""
@@ -458,7 +525,10 @@ class G:
                 ded = (self.ch(cparts) + "| ") if self.pr("dedicated", 0.25) else ""
                 fa.append(Instr("parent", (ded.rstrip("| ") if ded else None) if self.pr("bare_parent_ded", 0.3) else None, tag=("parent", None)))
             elif mode == 7:
-                fa.append(Instr("parent", self.parent_args(self.p.get("parent_depth", 2)), tag=("parent", None)))
+                ded = (self.ch(cparts) + "| ") if self.pr("dedicated", 0.25) else ""
+                fa.append(Instr("parent", ded + self.parent_args(self.p.get("parent_depth", 2)), tag=("parent", None)))
+                if ded and self.pr("second_parent", 0.3):
+                    fa.append(Instr("parent", self.parent_args(1), tag=("parent", None)))
             else:
                 if self.pr("member_instr", 0.35):
                     fa.append(self.member_map_instr(cparts, target_named=True, nfields=nf))
@@ -538,7 +608,7 @@ class G:
                 continue
             if self.pr("nested_instr", 0.4):
                 nm = self.ch(MAP12)
-                pre = f"[{nm}({self.ch(['that', 'that, ~.clone()', '~ + 1', '0', '1, { @.z }'])})] "
+                pre = f"[{nm}({self.ch(['that', 'that, ~.clone()', '~ + 1', '0', '1, { @.z }', '7u64', '1u8, ~', '4294967296'])})] "
             parts.append(pre + self.ch(["fa", "fb", "fc", "0", "1"]))
         return ", ".join(parts)
 
@@ -552,7 +622,7 @@ PROFILES = {
                     "as_type": 0.08, "ghosts": 0.1, "update": 0.08, "tuple_cpart": 0.08, "dedicated": 0.3},
     "traits": {"max_fields": 2, "multi_instr": 0.8, "multi_cpart": 0.5, "fallible": 0.5, "generic_cpart": 0.3, "odd_cpart": 0.3, "odd_err": 0.5,
                "tuple_cpart": 0.1, "member_instr": 0.05, "shuffle_type_attrs": 0.8, "hints": 0.2},
-    "member-instrs": {"min_fields": 1, "max_fields": 2, "member_instr": 0.85, "member_try": 0.4, "dedicated": 0.45, "multi_cpart": 0.7, "multi_instr": 0.7,
+    "member-instrs": {"lit_args": 0.08, "min_fields": 1, "max_fields": 2, "member_instr": 0.85, "member_try": 0.4, "dedicated": 0.45, "multi_cpart": 0.7, "multi_instr": 0.7,
                       "fallible": 0.5, "ghost_field": 0.25, "ghost_pair": 0.4, "ghost_flavour": 0.5, "hints": 0.2},
     "enum": {"max_variants": 4, "member_instr": 0.3, "variant_map": 0.35, "type_hint": 0.2, "variant_ghost": 0.12, "ghosts": 0.12,
              "default_case": 0.3, "fallible": 0.35, "multi_cpart": 0.25, "dedicated": 0.3, "variant_ghosts": 0.08, "ghost_field": 0.1},
@@ -567,14 +637,16 @@ PROFILES = {
     "generics": {"generics": 1.0, "generic_cpart": 0.7, "where_clause": 0.5, "max_fields": 2, "trailing_comma": 0.2, "multi_cpart": 0.3, "fallible": 0.3, "dedicated": 0.4},
     "expr": {"deep_expr": 0.8, "member_instr": 0.7, "ghost_field": 0.2, "ghosts": 0.2, "vars": 0.4, "update": 0.3, "quick_return": 0.15, "default_case": 0.3,
              "variant_map": 0.5, "max_fields": 3},
-    "parents": {"parent_heavy": 0.8, "parent_depth": 3, "nested_parent": 0.45, "nested_instr": 0.5, "max_fields": 4, "fallible": 0.3, "multi_cpart": 0.3, "hints": 0.3,
+    "parents": {"lit_args": 0.05, "parent_heavy": 0.8, "parent_depth": 3, "nested_parent": 0.45, "nested_instr": 0.5, "max_fields": 4, "fallible": 0.3, "multi_cpart": 0.5, "hints": 0.3,
                 "dedicated": 0.3, "member_instr": 0.3, "update": 0.1, "vars": 0.1},
     "trait-repeat": {"vars": 0.4, "fallible": 0.3, "attr_params": 0.1, "enum_item": 0.3, "lit": 0.3},
+    "shape-change": {"shape_change": 0.8, "shape_ghost": 0.3, "fallible": 0.3, "max_variants": 3, "variant_map": 0.1, "member_try": 0.1, "multi_instr": 0.5},
+    "unknowns": {"unknowns": 1.0, "max_fields": 3, "member_instr": 0.3, "multi_instr": 0.5, "max_variants": 3, "variant_map": 0.2},
     "faults": {"max_fields": 3, "member_instr": 0.4, "multi_cpart": 0.3, "fallible": 0.4, "drop_err": 0.15, "extra_err": 0.1, "ghost_field": 0.2, "ghost_default": 0.5,
                "dedicated": 0.4, "ghosts": 0.2, "where_clause": 0.2, "hints": 0.4, "drop_child_parents": 0.3, "drop_cp_entry": 0.2, "type_hint": 0.3},
 }
 
-KINDS_OF_ITEM = {"parents": ["tree"], "trait-repeat": ["trait_repeat"], "enum": ["enum"], "enum-prim": ["enum"], "tree": ["tree"], "repeat": ["struct", "enum"], "multi-counterpart": ["struct", "enum", "tree"],
+KINDS_OF_ITEM = {"shape-change": ["struct", "enum"], "unknowns": ["struct", "enum"], "parents": ["tree"], "trait-repeat": ["trait_repeat"], "enum": ["enum"], "enum-prim": ["enum"], "tree": ["tree"], "repeat": ["struct", "enum"], "multi-counterpart": ["struct", "enum", "tree"],
                  "trait-params": ["struct", "enum"], "generics": ["struct", "enum"], "expr": ["struct", "enum"], "faults": ["struct", "enum", "tree"],
                  "traits": ["struct", "enum"], "struct-flat": ["struct"], "member-instrs": ["struct"]}
 
@@ -601,7 +673,7 @@ def speller(r, mode="random"):
         while k < len(attrs):
             a = attrs[k]
             choice = r.randrange(3) if mode == "random" else {"bare": 0, "single": 1, "grouped": 2}[mode]
-            if choice == 0 and a.name in bare_names():
+            if (choice == 0 and a.name in bare_names()) or (a.tag and a.tag[0] == "unk" and a.name not in ALL_O2O_NAMES):
                 out.append(a.bare())
                 k += 1
             elif choice == 1:
@@ -619,7 +691,7 @@ def speller(r, mode="random"):
 # ---------------------------------------------------------------------------------------------
 # hostile stream (C16)
 
-HOSTILE_ARGS = ["", "()", "(A)", "(A as)", "(A as {x})", "(A, )", "(A | )", "(A | vars())", "(A | vars(x))", "(A | vars(x: 1))", "(A | ..)", "(A | return)",
+HOSTILE_ARGS = ["(1u8)", "(0usize, ~)", "(4294967296)", "(-1)", "(1.5)", "(A| 1u8)", "(0x1f)", "", "()", "(A)", "(A as)", "(A as {x})", "(A, )", "(A | )", "(A | vars())", "(A | vars(x))", "(A | vars(x: 1))", "(A | ..)", "(A | return)",
                 "(| x)", "(A B)", "(A | repeat(foo))", "(A | attribute)", "(A | attribute())", "(1)", "(\"s\")", "(A::<>)", "(::A)", "(A<B)", "(A as Unit, E | skip_repeat, skip_repeat)",
                 "(x: {1})", "(X{..}: {1})", "(X(..): {1})", "(a.b@c: {1})", "(a.@c: {1})", "(0: {1}, 1: {2},)", "(a.b.c)", "(0.1)", "(a.0.b: T)", "(a: T as Foo)", "(a: T, a: U)",
                 "(T: Clone)", "(T: )", "(: T)", "(A| T: Clone,)", "(x, ~.y)", "(x,)", "(, x)", "(~)", "(@)", "({})", "({ } x)", "(A| )", "(A|)", "(A| 0, { ~ })", "(as {})", "(as ())",
